@@ -90,7 +90,8 @@ func (l *recLS) Save(ctx context.Context, data []byte) ([]byte, error) {
 // ------------------------------------------------------------------ cases
 
 type jop struct {
-	Op string      `json:"op"` // add remove lookup has store reload
+	Op string      `json:"op"` // add remove lookup has store storecb reload
+	B  string      `json:"b,omitempty"` // storecb: "accept" | "reject-all" | "reject-root" (byte budget of the StoreSizeFunc)
 	P  string      `json:"p,omitempty"`
 	E  string      `json:"e,omitempty"`
 	M  [][2]string `json:"m,omitempty"` // sorted by key
@@ -220,7 +221,75 @@ const (
 	clsMutate    = "mutate-after-store"
 	clsEmptyRef  = "empty-reference"
 	clsNoOracle  = "outside-domain" // empty path, odd reference sizes: correspondence only
+	clsCbStore   = "store-with-callbacks" // the first successful Store goes through the StoreSizeFunc saver
+	clsFailRoot  = "failed-store-at-root"  // a Store rejected at the root node (children saved), then more writes
 )
+
+var errBudget = errors.New("size budget exceeded")
+
+// budgetFn is the StoreSizeFunc the harness installs: one cumulative byte budget.
+func budgetFn(budget int64) manifest.StoreSizeFunc {
+	var mu sync.Mutex
+	var total int64
+	return func(n int64) error {
+		mu.Lock()
+		defer mu.Unlock()
+		total += n
+		if total > budget {
+			return errBudget
+		}
+		return nil
+	}
+}
+
+type doneOp struct {
+	o      jop
+	budget int64
+}
+
+// probeTotal replays the operations executed so far on a twin manifest (own store) and
+// returns the number of bytes a Store would hand to the saver now. The root node is always
+// saved last, so the budget total-1 rejects exactly the root, whatever the order in which
+// mantaray saves the children concurrently.
+func probeTotal(ctx context.Context, enc bool, done []doneOp) (total int64) {
+	hx.Guard(func() {
+		st := &memStore{m: map[string][]byte{}}
+		ls := loadsave.New(st, func() pipeline.Interface {
+			return builder.NewPipelineBuilder(ctx, st, storage.ModePutUpload, false)
+		})
+		m, _ := manifest.NewMantarayManifest(ls, enc)
+		var last boson.Address
+		have := false
+		for _, d := range done {
+			p := string(unhex(d.o.P))
+			switch d.o.Op {
+			case "add":
+				_ = m.Add(ctx, p, manifest.NewEntry(boson.NewAddress(unhex(d.o.E)), mdMap(d.o.M)))
+			case "remove":
+				_ = m.Remove(ctx, p)
+			case "lookup":
+				_, _ = m.Lookup(ctx, p)
+			case "has":
+				_, _ = m.HasPrefix(ctx, p)
+			case "store":
+				if a, err := m.Store(ctx); err == nil {
+					last, have = a, true
+				}
+			case "storecb":
+				if a, err := m.Store(ctx, budgetFn(d.budget)); err == nil {
+					last, have = a, true
+				}
+			case "reload":
+				if have {
+					m, _ = manifest.NewMantarayManifestReference(last, ls)
+				}
+			}
+		}
+		var mu sync.Mutex
+		_, _ = m.Store(ctx, func(n int64) error { mu.Lock(); total += n; mu.Unlock(); return nil })
+	})
+	return total
+}
 
 // runHistory executes one history on the real implementation.
 func runHistory(run *hx.Run, jc jcase) {
@@ -242,6 +311,7 @@ func runHistory(run *hx.Run, jc jcase) {
 	var last boson.Address
 	haveLast := false
 	removes := 0
+	var done []doneOp
 	var coqOps []string
 	nontrivial := false
 	oracle := jc.Class != clsNoOracle
@@ -276,6 +346,7 @@ func runHistory(run *hx.Run, jc jcase) {
 		stop := false
 		var panicked bool
 		var opErr error
+		var curBudget int64
 		finished := hx.WithTimeout(20*time.Second, func() {
 			panicked, _ = hx.Guard(func() {
 				switch o.Op {
@@ -385,6 +456,36 @@ func runHistory(run *hx.Run, jc jcase) {
 					}
 					last, haveLast = a, true
 					obs = hx.CoqApp("YRef", pl.id(a.Bytes()))
+				case "storecb":
+					var budget int64
+					switch o.B {
+					case "reject-all":
+						budget = 0
+					case "accept":
+						budget = 1 << 40
+					case "reject-root":
+						if t := probeTotal(ctx, jc.Enc, done); t > 0 {
+							budget = t - 1
+						}
+					default:
+						panic("unknown budget mode " + o.B)
+					}
+					curBudget = budget
+					cop = hx.CoqApp("IStoreCb", hx.CoqN(uint64(budget)))
+					a, err := m.Store(ctx, budgetFn(budget))
+					opErr = err
+					if err != nil {
+						// a rejected Store: the error is expected; what it must not do is change
+						// what later lookups and stores observe (checked by the lookups that follow)
+						obs = hx.CoqApp("YErr", hx.CoqN(classOf(err)))
+						if oracle && o.B == "accept" {
+							run.OracleChecked(1)
+							viol("store", "error", fmt.Sprintf("op %d: Store with an accepting size callback failed: %v", i, err), err.Error(), "address")
+						}
+						break
+					}
+					last, haveLast = a, true
+					obs = hx.CoqApp("YRef", pl.id(a.Bytes()))
 				case "reload":
 					if !haveLast {
 						return
@@ -419,7 +520,12 @@ func runHistory(run *hx.Run, jc jcase) {
 		}
 		_ = opErr
 		coqOps = append(coqOps, hx.CoqPair(cop, obs))
-		run.Hist("op." + o.Op)
+		done = append(done, doneOp{o, curBudget})
+		if o.Op == "storecb" {
+			run.Hist("op.storecb." + o.B)
+		} else {
+			run.Hist("op." + o.Op)
+		}
 		if stop {
 			break
 		}
@@ -491,6 +597,19 @@ func corpus() []jcase {
 		{Class: clsRmPrefix, Ops: []jop{opAdd("a", refN(1), nil), opAdd("ab", refN(2), nil), opP("remove", "a"), opP("has", "ab"), opP("remove", "ab")}},
 		{Class: clsEmptyRef, Ops: []jop{opAdd("a", nil, md), opAdd("ab", nil, md), {Op: "store"}, opP("has", "a")}},
 		{Class: clsMutate, Ops: []jop{opAdd("a", refN(1), nil), opAdd("ab", refN(3), nil), {Op: "store"}, opAdd("a", refN(2), nil), opP("remove", "ab")}},
+		// seeded/C10-2: a Store rejected by the size callback at the root (the three leaves are saved),
+		// lookups, one new path and one overwrite, a plain Store, reload
+		{Class: clsFailRoot, Ops: []jop{
+			opAdd("a.txt", refN(1), [][2]string{{"Filename", "a.txt"}}), opAdd("b.txt", refN(2), [][2]string{{"Filename", "b.txt"}}), opAdd("c.txt", refN(3), [][2]string{{"Filename", "c.txt"}}),
+			{Op: "storecb", B: "reject-root"}, opP("lookup", "a.txt"), opP("lookup", "b.txt"), opP("lookup", "c.txt"),
+			opAdd("d.txt", refN(4), [][2]string{{"Filename", "d.txt"}}), opAdd("b.txt", refN(9), [][2]string{{"Content-Type", "text/plain"}, {"Filename", "b.txt"}}),
+			{Op: "store"}, {Op: "reload"}, opP("lookup", "a.txt"), opP("lookup", "b.txt"), opP("lookup", "c.txt"), opP("lookup", "d.txt"), opP("has", "d.")}},
+		// a Store rejected at the first node (nothing saved), then an add below an existing entry
+		{Class: clsDisc, Ops: []jop{opAdd("a", refN(1), nil), {Op: "storecb", B: "reject-all"}, opAdd("ab", refN(2), md), opP("lookup", "ab"),
+			{Op: "storecb", B: "reject-all"}, {Op: "store"}, {Op: "storecb", B: "reject-all"}, {Op: "reload"}, opP("lookup", "ab"), opP("lookup", "a"), {Op: "storecb", B: "accept"}}},
+		// the first successful Store goes through accepting callbacks; rejected at the root twice before
+		{Class: clsFailRoot, Enc: true, Key: k, Ops: []jop{opAdd("x/1", refN(1), md), opAdd("y", refN(2), nil), {Op: "storecb", B: "reject-root"}, opAdd("z", refN(3), nil),
+			{Op: "storecb", B: "reject-root"}, opP("remove", "y"), {Op: "storecb", B: "accept"}, {Op: "reload"}, opP("lookup", "x/1"), opP("lookup", "y"), opP("lookup", "z")}},
 		// hasPrefix after removes
 		{Class: clsDisc, Ops: []jop{opAdd("ab", refN(1), nil), opAdd("ac", refN(2), nil), opP("remove", "ab"), opP("remove", "ac"), opP("has", "a"), opP("lookup", "ab"), {Op: "store"}, {Op: "reload"}, opP("has", "a"), opP("lookup", "ac")}},
 		{Class: clsDisc, Ops: []jop{opAdd(long40, refN(1), nil), opP("remove", long40), opP("has", "0"), opP("lookup", long40)}},
@@ -646,6 +765,9 @@ func (g *gen) history(class string) jcase {
 		default:
 			jc.Ops = append(jc.Ops, query())
 		}
+		if (class == clsDisc || class == clsCbStore) && r.Chance(1, 10) {
+			jc.Ops = append(jc.Ops, jop{Op: "storecb", B: "reject-all"}) // a rejected Store in the build phase
+		}
 		if !special && i >= 1 {
 			switch class {
 			case clsRmPrefix:
@@ -678,7 +800,15 @@ func (g *gen) history(class string) jcase {
 	// store / read phase
 	rounds := 1 + r.Intn(2)
 	for k := 0; k < rounds; k++ {
-		jc.Ops = append(jc.Ops, jop{Op: "store"})
+		switch {
+		case k == 0 && class == clsCbStore:
+			jc.Ops = append(jc.Ops, jop{Op: "storecb", B: "accept"})
+		case k > 0 && r.Chance(1, 2):
+			// after the first Store the root reference is cached: no callback may run
+			jc.Ops = append(jc.Ops, jop{Op: "storecb", B: []string{"accept", "reject-all", "reject-root"}[r.Intn(3)]})
+		default:
+			jc.Ops = append(jc.Ops, jop{Op: "store"})
+		}
 		for i := r.Intn(3); i > 0; i-- {
 			jc.Ops = append(jc.Ops, query())
 		}
@@ -713,9 +843,92 @@ func (g *gen) history(class string) jcase {
 	return jc
 }
 
+// historyFailRoot: flat path set (distinct first bytes, at most 30 bytes: every entry is a leaf
+// below the root), a Store rejected exactly at the root (all leaves saved, the root not), then more
+// writes, a successful Store, reload. Kept clear of the known defects of the dependency: an
+// overwrite is preceded by a lookup of that path (a lazily loaded node must be loaded before it
+// is overwritten), new paths start with a fresh byte.
+func (g *gen) historyFailRoot() jcase {
+	r := g.r
+	jc := jcase{Class: clsFailRoot}
+	if r.Chance(1, 4) {
+		jc.Enc = true
+		jc.Key = hx.Hex(r.Bytes(32))
+	}
+	firsts := []byte("abcdefgh/0\xff\x00")
+	for i := len(firsts) - 1; i > 0; i-- {
+		j := r.Intn(i + 1)
+		firsts[i], firsts[j] = firsts[j], firsts[i]
+	}
+	sufs := []string{"", ".txt", "/x", "01234567890123456789", "/i/j", "b"}
+	n := 5 + r.Intn(4)
+	pool := make([]string, n)
+	for i := range pool {
+		pool[i] = string(firsts[i]) + sufs[r.Intn(len(sufs))]
+	}
+	present := map[string][][2]string{}
+	refs := [][]byte{refN(1), refN(2), refN(3), r.Bytes(32)}
+	add := func(p string) {
+		md := mdPool[r.Intn(len(mdPool))]
+		if old, ok := present[p]; ok && len(old) > 0 && len(md) == 0 {
+			md = mdPool[1+r.Intn(len(mdPool)-1)]
+		}
+		jc.Ops = append(jc.Ops, opAdd(p, refs[r.Intn(len(refs))], md))
+		if len(md) > 0 {
+			present[p] = md
+		} else if _, ok := present[p]; !ok {
+			present[p] = nil
+		}
+	}
+	for i := 0; i < 2+r.Intn(3); i++ {
+		add(pool[i])
+	}
+	if r.Chance(1, 3) {
+		add(pool[0]) // overwrite in the build phase
+	}
+	for round := 0; round < 1+r.Intn(2); round++ {
+		jc.Ops = append(jc.Ops, jop{Op: "storecb", B: "reject-root"})
+		for i := 1 + r.Intn(5); i > 0; i-- {
+			p := pool[r.Intn(len(pool))]
+			_, here := present[p]
+			switch x := r.Intn(8); {
+			case x < 2:
+				jc.Ops = append(jc.Ops, opP("lookup", p))
+			case x == 2:
+				jc.Ops = append(jc.Ops, opP("has", p[:1+r.Intn(len(p))]))
+			case x == 3 && here:
+				jc.Ops = append(jc.Ops, opP("remove", p))
+				delete(present, p)
+			case here:
+				jc.Ops = append(jc.Ops, opP("lookup", p)) // load the node before overwriting it
+				add(p)
+			default:
+				add(p)
+			}
+		}
+		if r.Chance(1, 4) {
+			jc.Ops = append(jc.Ops, jop{Op: "storecb", B: "reject-all"})
+		}
+	}
+	if r.Chance(1, 3) {
+		jc.Ops = append(jc.Ops, jop{Op: "storecb", B: "accept"})
+	} else {
+		jc.Ops = append(jc.Ops, jop{Op: "store"})
+	}
+	if r.Chance(3, 4) {
+		jc.Ops = append(jc.Ops, jop{Op: "reload"})
+	}
+	for _, p := range pool {
+		jc.Ops = append(jc.Ops, opP("lookup", p))
+	}
+	p := pool[r.Intn(len(pool))]
+	jc.Ops = append(jc.Ops, opP("has", p[:1+r.Intn(len(p))]))
+	return jc
+}
+
 func main() {
 	run := hx.Start("C10", "Aurora.C10.Corr",
-		"histories of add/remove/lookup/hasPrefix/store/reload on manifest.NewMantarayManifest over loadsave(pipeline+joiner, in-memory chunk store); path pools with shared prefixes, nested directories, 28..62-byte segments, raw bytes; classes: disciplined (domain of the partial theorem) and one excluded feature per history; non-trivial = history with a reload and >= 4 operations; distinct by (key mode, operation list)")
+		"histories of add/remove/lookup/hasPrefix/store/reload on manifest.NewMantarayManifest over loadsave(pipeline+joiner, in-memory chunk store); path pools with shared prefixes, nested directories, 28..62-byte segments, raw bytes; classes: disciplined (domain of the partial theorem, incl. Stores rejected by a size callback), store-with-callbacks, failed-store-at-root (flat path set, Store rejected at the root, more writes, Store), and one excluded feature per history; non-trivial = history with a reload and >= 4 operations; distinct by (key mode, operation list)")
 	if run.Replay != "" {
 		var jc jcase
 		if err := run.ReadReplay(&jc); err != nil {
@@ -741,6 +954,11 @@ func main() {
 			class = clsMutate
 		case x == 4:
 			class = clsEmptyRef
+		case x == 5:
+			class = clsCbStore
+		case x == 6 || x == 7 || x == 8:
+			runHistory(run, g.historyFailRoot())
+			continue
 		}
 		runHistory(run, g.history(class))
 	}
